@@ -41,6 +41,10 @@ func servicesOptions(r *rng.R) gobuild.Options {
 		// also in spellings that are not clean: what plugins are told (import paths, directories)
 		// must be what the generated packages have
 		o.PkgPrefix = []string{"genout/x/y-z/gen", "genout/x/y-z/gen/", "./genout/x/y-z/gen", "genout/x//y-z/gen", "genout/x/y-z/./gen/"}[r.Intn(5)]
+	case 4:
+		// --output-file without --no-recurse: code is generated for the given file only, and only its
+		// services are root services
+		o.OutputFile = "all_in_one.go"
 	}
 	return o
 }
